@@ -206,6 +206,11 @@ func validateUnionCases(env *Environment, errorSink *validation.ErrorSink) *Envi
 			self.VisitChildren(node, visitingReference)
 
 		case *SimpleType:
+			// unions written inside generic type arguments must be well-formed too
+			for _, typeArg := range t.TypeArguments {
+				self.Visit(typeArg, visitingReference)
+			}
+
 			if len(t.ResolvedDefinition.GetDefinitionMeta().TypeArguments) > 0 {
 				// Check the referenced type with the type arguments provided
 				self.Visit(t.ResolvedDefinition, true)
